@@ -53,6 +53,9 @@ rules=[
  ('array-unique-on-message-items', spec('fa','obj',arr='1',ar='1',auniq='1')+' | ~ [] [P] [P,P]'),
  ('fixed c0f36ba optional-field-without-presence', spec('fa','str',opt='1',r='1',minl='1')+' | ~ - 61'),
  ('fixed b6c593a enum default filter', spec('fa','enum',eopts=hx('ALPHA'),lr=lr(f=1,df=('nope',)))+' | ~ 0 1 2'),
+ ('regression (seeded C12-m8): rule-less enum field, not required, beside a required sibling of the same enum', spec('fa','enum',eopts=hx('ALPHA')+','+hx('BETA'))+' | ~ -1 0 1 2 3'),
+ ('regression (seeded C12-m8): rule-less enum field, required, beside a non-required sibling of the same enum', spec('fa','enum',req='1',eopts=hx('ALPHA')+','+hx('BETA'))+' | ~ -1 0 1 2 3'),
+ ('regression (seeded C12-m8): array of a rule-less enum beside a required sibling', spec('fa','enum',arr='1',eopts=hx('ALPHA'))+' | ~ [] [0] [1] [1,0]'),
  ('fixed d9448b1 map value rules', spec('fa','str',arr='m',ar='1',amin='1',amax='2',r='1',minl='2')+' | ~ [] [61] [6162] [6162,616263] [6162,616263,61626364] [6162,61]'),
 ]
 def root(kind='obj',desc='~',ent='~',part='~',anym='~',barent='~'):
@@ -64,6 +67,9 @@ roots=[
  ('regression: entity without part, field keys of an entity object', root(ent=hx('Thing'),barent=hx('Widget')), [spec('keys','obj')]),
  ('regression (seeded C04-m3): non-canonical names on array / map / single / enum properties', root(), [spec('htmlURLs','str',arr='1'), spec('labelsByID','str',arr='m'), spec('x2y','int',fmt='i32'), spec('URL','enum',eopts=hx('ALPHA'))]),
  ('regression (seeded C04-m6): explicit UNSPECIFIED with a description, descriptions on some options, enum description', root(), [spec('fa','enum',eopts=hx('UNSPECIFIED')+','+hx('ALPHA')+','+hx('BETA'),eodesc=hx('zero desc')+',-,'+hx('bee'),edesc=hx('the enum')), spec('fb','enum',eopts=hx('ALPHA')+','+hx('E_FB_BETA'),eodesc=hx('ay')+','+hx('line one\nline two'))]),
+ ('regression (seeded C04-m7): 12 properties with descriptions — order through the printed .proto text', root(desc=hx('wide')), [spec(n,'str',desc=hx('d '+n)) for n in ['fa','fb','fooBar','count','itemId','labels','status','kind','q','x2y','aB','a1']]),
+ ('regression (seeded C04-m7): oneof root with 11 options', root(kind='oneof'), [spec(n,'int',fmt='i32') for n in ['fa','fb','fooBar','count','itemId','labels','status','kind','q','x2y','aB']]),
+ ('regression (seeded C04-m7): enum with 12 described options', root(), [spec('fa','enum',eopts=','.join(hx(o) for o in ['ALPHA','BETA','GAMMA','DELTA','EPSILON','ZETA','ETA','THETA','IOTA','KAPPA','LAMBDA','MU']),eodesc=','.join(hx('d'+str(i)) for i in range(12)))]),
  ('regression: oneof root', root(kind='oneof',desc=hx('a oneof')), [spec('fa','obj',desc=hx('an option')), spec('fb','int',fmt='i32',r='1',min='3'), spec('fc','enum',eopts=hx('ALPHA'))]),
 ]
 which=sys.argv[1]
